@@ -773,8 +773,17 @@ def ob_wig_block_r(ctx, res):
                 incs = [Node({"k": "binary", "op": "+=", "l": sat[0]["l"], "r": strip(sat[0]["r"])["args"][0], "sp": sat[0]["sp"]})]
                 incs[0].order = sat[0].order
                 incs[0].parent = sat[0].parent
-            if cur is None or start_o != cur or len(incs) != 1 or up(strip(incs[0]["r"])) != H["itemStep"] or \
-                    end_o not in ("%s + %s" % (v.get("start"), H["itemSpan"]), "%s + %s" % (H["itemSpan"], v.get("start"))):
+            # end = start + itemSpan, decided on the expression (the literal's `end` may be a local or written in place)
+            from ..rules import equiv as EQ
+            from ..astq import tnorm_keeping
+            vlit = [n for n in walk_no_nested_fn(a3["body"]) if n.k == "struct" and n["path"].split("::")[-1] == "Value"][0]
+            fe = [x for x in vlit["fields"] if x["name"] == "end"]
+            end_ok = False
+            if fe and fe[0].get("e") is not None and v.get("start"):
+                q_ = EQ.equiv(None, tnorm_keeping(fn, strip(fe[0]["e"]), (v.get("start"), cur or "")), {"S": re.escape(v.get("start")), "SP": re.escape(H["itemSpan"])},
+                              lambda e: e["S"] + e["SP"], domain=range(0, 4))
+                end_ok = q_[0] == "equal"
+            if cur is None or start_o != cur or len(incs) != 1 or up(strip(incs[0]["r"])) != H["itemStep"] or not end_ok:
                 res.fail("wigItem3/value", a3, "fixed-step value i must be {start = chromStart + i*itemStep, end = start + itemSpan}; "
                          "cursor=%s start=%s end=%s step=%s" % (cur, start_o, end_o, [up(i) for i in incs]))
             else:
